@@ -141,6 +141,7 @@ class Skip(Exception):
 
 
 class World:
+    big = False
     """two real buffers + the handles the model says are held"""
 
     def __init__(self, cfg, initA, initB):
@@ -699,11 +700,18 @@ def walk(args):
     cfg = rng.choice(CONFIGS)
     capA = rng.choice([0, 1, 5, 16, 33, 64, 100, 256, 1000, 4096])
     capB = rng.choice([1, 8, 16, 40, 64, 128, 300, 1024, 4096])
+    big = seed % 16 == 7
+    if big:
+        # transfers larger than any block a primitive might stage through (64 KiB and its neighbours): few steps, windows up to
+        # the whole capacity, source and destination offsets that differ
+        capA, capB = rng.choice([65536 + 9, 66000, 70001, 131072 + 24]), rng.choice([65536 + 64, 69000, 140000])
+        steps = min(steps, 10)
     initA = [rng.randrange(256) for _ in range(capA)]
     initB = [rng.randrange(256) for _ in range(capB)]
     w = World(cfg, initA, initB)
     tr = dict(init=dict(A=initA, B=initB), ev=[], cfg=list(cfg), seed=seed, forms=[], origins=dict(copy={}, view=[]))
-    small = rng.random() < 0.6
+    small = rng.random() < 0.6 and not big
+    w.big = big
     before = w.observe()
     for _ in range(steps):
         c, var, data = _random_cmd(rng, w, small)
@@ -753,7 +761,7 @@ def walk(args):
     return tr
 
 
-def _window(rng, cap, small, mult=1):
+def _window(rng, cap, small, mult=1, big=False):
     """random (off, n) inside cap, n multiple of mult"""
     if cap == 0:
         return 0, 0
@@ -765,6 +773,8 @@ def _window(rng, cap, small, mult=1):
         n = cap - off
     else:
         n = rng.randrange(0, min(cap, 24 if small else 700) + 1)
+        if big and rng.random() < 0.7:
+            n = rng.randrange(min(cap, 65000), cap + 1)
         off = rng.randrange(0, cap - n + 1)
     n -= n % mult
     return off, n
@@ -777,14 +787,16 @@ def _random_cmd(rng, w, small):
     c = dict(op="", b=b, off=0, n=0, st=0, src="", soff=0, w=0, cnt=0, k=0, kind="", len=0)
     ops = ["ufb"] * 4 + ["unp"] * 4 + ["ufx"] * 4 + ["ufn"] * 2 + ["ctn"] * 2 + ["ctf", "ton", "tob", "tob", "tpa", "tnp", "tnp", "tnp"] + ["wv"] * 3 + ["wc", "grow"]
     op = rng.choice(ops)
+    if w.big and rng.random() < 0.5:
+        op = "ufx"
     if (op in ("ton", "tob", "tpa", "tnp", "ctf") and len(w.copies) + len(w.views) >= 14) or (op == "grow" and cap + 64 > 5000):
         op = "ufb"
     c["op"] = op
     if op == "ufb":
-        c["off"], c["n"] = _window(rng, cap, small)
+        c["off"], c["n"] = _window(rng, cap, small, big=w.big)
     elif op == "unp":
         wd = rng.choice([1, 2, 4, 8])
-        c["off"], c["n"] = _window(rng, cap, small, wd)
+        c["off"], c["n"] = _window(rng, cap, small, wd, big=w.big)
         c["w"], c["cnt"] = wd, c["n"] // wd
     elif op in ("ufn", "ctn"):
         cands = [sid for sid in w.store if w.native_kind(sid) == w.kind[b] and (op == "ufn" or sid != w.cur[b])]
@@ -792,7 +804,7 @@ def _random_cmd(rng, w, small):
             return None, None, None
         st = rng.choice(cands)
         ln = len(raw(w.storage(st)))
-        off, n = _window(rng, min(cap, ln), small)
+        off, n = _window(rng, min(cap, ln), small, big=w.big)
         c["n"], c["st"] = n, st
         if op == "ufn":
             c["off"], c["soff"] = rng.randrange(0, cap - n + 1), rng.randrange(0, ln - n + 1)
@@ -819,7 +831,7 @@ def _random_cmd(rng, w, small):
     elif op == "ufx":
         src = rng.choice("AB")
         scap = w.bufs[src].capacity
-        _, n = _window(rng, min(cap, scap), small)
+        _, n = _window(rng, min(cap, scap), small, big=w.big)
         c.update(src=src, n=n, off=rng.randrange(0, cap - n + 1), soff=rng.randrange(0, scap - n + 1))
     elif op == "wv":
         cands = [i for i, v in enumerate(w.views) if v[2] == w.cur[v[1]] and isinstance(v[0], np.ndarray) and v[0].size > 0]
